@@ -73,6 +73,20 @@ pub enum Outcome {
     Panic(String),
 }
 
+/// like [outcome], for token streams that cannot be written as source text (groups with invisible delimiters)
+pub fn outcome_ts(macro_name: &str, attr: TokenStream, item: TokenStream) -> Outcome {
+    match expand_ts(macro_name, attr, item) {
+        Expansion::Panic(m) => Outcome::Panic(m),
+        Expansion::Tokens(ts) => {
+            let t = tok::toks(ts.clone());
+            match tok::find_compile_error(&t) {
+                Some(msg) => Outcome::Rejected(msg),
+                None => Outcome::Accepted(t, ts),
+            }
+        }
+    }
+}
+
 pub fn outcome(macro_name: &str, attr: &str, item: &str) -> Result<Outcome, String> {
     Ok(match expand_src(macro_name, attr, item)? {
         Expansion::Panic(m) => Outcome::Panic(m),
